@@ -19,3 +19,17 @@ func verifPersistStage(key string, stage int) {
 		h(key, stage)
 	}
 }
+
+// VerifGetHook, when set by a verification harness, is called by directoryCache.Get between its three lookups:
+//
+//	1 after the memory LRU missed, before the descriptor LRU is consulted
+//	2 after the descriptor LRU missed, before the cache file is opened
+//
+// It lets a harness interleave other cache operations between the lookups of one Get. Nil unless installed.
+var VerifGetHook func(key string, stage int)
+
+func verifGetStage(key string, stage int) {
+	if h := VerifGetHook; h != nil {
+		h(key, stage)
+	}
+}
